@@ -3,6 +3,7 @@ import PT.Props.C06
 import PT.Props.C07
 import PT.Lemmas.Reach
 import PT.Props.C02
+import PT.Props.C09
 /-!
 # C18 — Keys are identified by network part; stored representation is last inserted
 
@@ -25,6 +26,16 @@ theorem get_host_bits_irrelevant (m : PMap w V) {q q' : Pfx w} (hq : q.net = q'.
     m.get q = m.get q' ∧ m.getKeyValue q = m.getKeyValue q' ∧ m.containsKey q = m.containsKey q' := by
   unfold PMap.get PMap.getKeyValue PMap.containsKey Tree.get Tree.getKeyValue Tree.containsKey Tree.get
   rw [findNode_congr hq]; exact ⟨rfl, rfl, rfl⟩
+
+/-- … for `cover` and shortest-prefix match … -/
+theorem cover_host_bits_irrelevant {m : PMap w V} (h : m.TreeWF) {q q' : Pfx w} (hq : q.net = q'.net) :
+    m.cover q = m.cover q' ∧ m.getSpm q = m.getSpm q' := by
+  have hc : m.cover q = m.cover q' := by
+    rw [C09.cover_eq h, C09.cover_eq h]
+    apply List.filter_congr
+    intro e _
+    rw [Bool.eq_iff_iff, contains_iff, contains_iff, hq]
+  exact ⟨hc, by rw [C09.getSpm_eq_cover_head, C09.getSpm_eq_cover_head, hc]⟩
 
 /-- … for longest-prefix match and cover … -/
 theorem lpm_host_bits_irrelevant {m : PMap w V} (h : m.TreeWF) {q q' : Pfx w} (hq : q.net = q'.net) :
